@@ -266,6 +266,48 @@ WITNESS = ({"h.h": "void f(int *p);\nvoid g(int *q);\n",
             "c.c": '#include "h.h"\nvoid g(int *q) {\n    *q = 1;\n}\n'}, ["a.c", "b.c", "c.c"], [], "witness")
 
 
+# a header whose name contains a double quote: the function ids (file:line:col) carry it
+WITNESS_QUOTE = ({'h"x.h': "void g(int *q);\n",
+                  "a.c": '#include <h"x.h>\nvoid caller(void) {\n    g(0);\n}\n',
+                  "c.c": '#include <h"x.h>\nvoid g(int *q) {\n    *q = 1;\n}\n'}, ["a.c", "c.c"], ["-I."], "witness-quote")
+
+
+# a source file with a non-ASCII name: toxml turns every byte > 0x7f of a stored file name into 'x'
+WITNESS_NONASCII = ({"h.h": "void g(int *q);\n",
+                     "\u00e4.c": '#include "h.h"\nvoid caller(void) {\n    g(0);\n}\n',
+                     "c.c": '#include "h.h"\nvoid g(int *q) {\n    *q = 1;\n}\n'}, ["\u00e4.c", "c.c"], [], "witness-nonascii")
+
+
+def xed(line):
+    return "".join("x" if ord(ch) > 0x7f else ch for ch in line)
+
+
+def explained_by_lossy_toxml(project, res):
+    """every difference is a finding whose text is the in-memory one with the bytes > 0x7f replaced by 'x'"""
+    a = res["A"]
+    if not any(ord(ch) > 0x7f for x in a for ch in x):
+        return False
+    ax = {xed(x) for x in a}
+    for m in ("B1", "B2", "C"):
+        for line in res[m] - a:
+            if line not in ax:
+                return False
+        for line in a - res[m]:
+            if xed(line) not in res[m]:
+                return False
+    return differs(res)
+
+
+def explained_by_unescaped_id(project, res):
+    """the project has a '"' in a header name, mode A has findings, and the build-dir modes fail to load the analyzer info"""
+    if not any('"' in n for n in project[0]):
+        return False
+    for m in ("B2", "C"):
+        if not any(x.startswith("internalError|") and "failed to load" in x for x in res[m]):
+            return False
+    return True
+
+
 def wp_lines(out):
     res = set()
     for line in out.splitlines():
@@ -282,13 +324,13 @@ def run_modes(cppcheck, project, keep=False):
     d = tempfile.mkdtemp(prefix="c22_", dir="/tmp")
     try:
         for n, t in files.items():
-            with open(os.path.join(d, n), "w") as f:
+            with open(os.path.join(d, n).encode("utf-8"), "w") as f:
                 f.write(t)
         res = {}
 
         def go(extra):
-            p = subprocess.run([cppcheck, "-q", TEMPLATE] + opts + extra + srcs, cwd=d, stdout=subprocess.PIPE, stderr=subprocess.STDOUT, timeout=300)
-            return wp_lines(p.stdout.decode("utf-8", "replace"))
+            p = subprocess.run([cppcheck, "-q", TEMPLATE] + opts + extra + [x.encode("utf-8") for x in srcs], cwd=d, stdout=subprocess.PIPE, stderr=subprocess.STDOUT, timeout=300)
+            return wp_lines(p.stdout.decode("latin-1"))   # one character per byte
         res["A"] = go(["-j1"])
         os.mkdir(os.path.join(d, "bd1"))
         res["B1"] = go(["-j1", "--cppcheck-build-dir=bd1"])
